@@ -132,7 +132,7 @@ theorem sim_fileHost (m : M) (u : Url) (hI : Inv c m u) (hs : m.state = .fileHos
   unfold bFileHost
   simp only []
   upsimp
-  refine R.sat_bind (findIf_spec c.a c.first c.last isSpecialAuthorityEnd hl (c.last - p) p h1 (by omega)) ?_
+  refine R.sat_bind (findIf_specV c.a c.first c.last isSpecialAuthorityEnd hl (c.last - p) p h1 (by omega)) ?_
   intro eoa ⟨e1, e2, e3, e4⟩
   have hscan := Dl_scan_delim c.e c.a W.hu (fun ch => !isSpecialAuthorityEnd ch) isSAE_ascii p eoa c.last e1
     (by omega) hl (by intro i hi1 hi2; simp [e3 i hi1 hi2])
